@@ -17,12 +17,51 @@ type R1 struct {
 	S string
 }
 
+// RW is R1 with 23 more fields under long names: its generated schema is well above 1 KiB (the file writer builds
+// the header in a fixed-size scratch buffer; a schema that does not fit takes whatever other path there is).
+type RW struct {
+	S string
+	LongFieldNameToMakeTheSchemaBig01 int64 `json:"long_field_name_to_make_the_schema_big_01"`
+	LongFieldNameToMakeTheSchemaBig02 int64 `json:"long_field_name_to_make_the_schema_big_02"`
+	LongFieldNameToMakeTheSchemaBig03 int64 `json:"long_field_name_to_make_the_schema_big_03"`
+	LongFieldNameToMakeTheSchemaBig04 int64 `json:"long_field_name_to_make_the_schema_big_04"`
+	LongFieldNameToMakeTheSchemaBig05 int64 `json:"long_field_name_to_make_the_schema_big_05"`
+	LongFieldNameToMakeTheSchemaBig06 int64 `json:"long_field_name_to_make_the_schema_big_06"`
+	LongFieldNameToMakeTheSchemaBig07 int64 `json:"long_field_name_to_make_the_schema_big_07"`
+	LongFieldNameToMakeTheSchemaBig08 int64 `json:"long_field_name_to_make_the_schema_big_08"`
+	LongFieldNameToMakeTheSchemaBig09 int64 `json:"long_field_name_to_make_the_schema_big_09"`
+	LongFieldNameToMakeTheSchemaBig10 int64 `json:"long_field_name_to_make_the_schema_big_10"`
+	LongFieldNameToMakeTheSchemaBig11 int64 `json:"long_field_name_to_make_the_schema_big_11"`
+	LongFieldNameToMakeTheSchemaBig12 int64 `json:"long_field_name_to_make_the_schema_big_12"`
+	LongFieldNameToMakeTheSchemaBig13 int64 `json:"long_field_name_to_make_the_schema_big_13"`
+	LongFieldNameToMakeTheSchemaBig14 int64 `json:"long_field_name_to_make_the_schema_big_14"`
+	LongFieldNameToMakeTheSchemaBig15 int64 `json:"long_field_name_to_make_the_schema_big_15"`
+	LongFieldNameToMakeTheSchemaBig16 int64 `json:"long_field_name_to_make_the_schema_big_16"`
+	LongFieldNameToMakeTheSchemaBig17 int64 `json:"long_field_name_to_make_the_schema_big_17"`
+	LongFieldNameToMakeTheSchemaBig18 int64 `json:"long_field_name_to_make_the_schema_big_18"`
+	LongFieldNameToMakeTheSchemaBig19 int64 `json:"long_field_name_to_make_the_schema_big_19"`
+	LongFieldNameToMakeTheSchemaBig20 int64 `json:"long_field_name_to_make_the_schema_big_20"`
+	LongFieldNameToMakeTheSchemaBig21 int64 `json:"long_field_name_to_make_the_schema_big_21"`
+	LongFieldNameToMakeTheSchemaBig22 int64 `json:"long_field_name_to_make_the_schema_big_22"`
+	LongFieldNameToMakeTheSchemaBig23 int64 `json:"long_field_name_to_make_the_schema_big_23"`
+}
+
 // Op codes: 0..n-1 encode record i of the kind's alphabet, n = flush.
 type Kind struct {
 	Name    string
 	Records []string // for R1: the strings; for R0: one entry ""
 	Schema  *ref.Schema
+	Wide    bool
 }
+
+// KW: few small records, big schema
+var KW = func() Kind {
+	fs := []ref.Field{ref.F("S", ref.Prim("string"))}
+	for i := 1; i < 24; i++ {
+		fs = append(fs, ref.F(fmt.Sprintf("long_field_name_to_make_the_schema_big_%02d", i), ref.Prim("long")))
+	}
+	return Kind{Name: "struct{S string; 23 more fields} (schema > 1 KiB)", Records: []string{"", strings.Repeat("w", 30)}, Schema: ref.Record("RW", fs...), Wide: true}
+}()
 
 var K0 = Kind{Name: "struct{}", Records: []string{""}, Schema: ref.Record("R0")}
 var K1 = Kind{Name: "struct{S string}", Records: []string{"", strings.Repeat("k", 9), strings.Repeat("B", 40)},
@@ -50,6 +89,13 @@ func (k Kind) RecordBytes(op int) []byte {
 	if len(k.Schema.Fields) == 0 {
 		return nil
 	}
+	if k.Wide {
+		ds := []ref.Datum{ref.DString(k.Records[op])}
+		for i := 1; i < len(k.Schema.Fields); i++ {
+			ds = append(ds, ref.DLong(0))
+		}
+		return ref.Encode(k.Schema, ref.DRecord(ds...))
+	}
 	return ref.Encode(k.Schema, ref.DRecord(ref.DString(k.Records[op])))
 }
 
@@ -71,7 +117,22 @@ type enc1 struct {
 func (e enc1) Encode(op int) error { r := R1{S: e.k.Records[op]}; return e.e.Encode(&r) }
 func (e enc1) Flush() error        { return e.e.Flush() }
 
+type encW struct {
+	e *avro.Encoder[RW]
+	k Kind
+}
+
+func (e encW) Encode(op int) error { r := RW{S: e.k.Records[op]}; return e.e.Encode(&r) }
+func (e encW) Flush() error        { return e.e.Flush() }
+
 func New(k Kind, w io.Writer, comp string, blockSize int) (Enc, error) {
+	if k.Wide {
+		e, err := avro.NewEncoderFor[RW](w, avro.Compression(comp), blockSize)
+		if err != nil {
+			return nil, err
+		}
+		return encW{e, k}, nil
+	}
 	if len(k.Schema.Fields) == 0 {
 		e, err := avro.NewEncoderFor[R0](w, avro.Compression(comp), blockSize)
 		if err != nil {
